@@ -1,7 +1,7 @@
 """C12 — net<->netip conversions preserve address and subnet membership; comparators sort."""
 import json
 
-from vlib.core import write_cfg, validate_trace, count_lines, CheckerError
+from vlib.core import write_cfg, validate_trace, count_lines, CheckerError, REPO
 
 LEVEL = "model_checking"
 META = {
@@ -43,7 +43,9 @@ def run(ctx):
     ctx.rule = ("G: TLC enumerates every net.IP shape x fill, every mask pattern (all contiguous masks, holes, nil, "
                 "wrong lengths), every net.Addr kind x zone x port with the required results, and every sequence up "
                 "to the length bound over a 7-address universe with the required order; each is replayed on the real "
-                "functions, accepted subnets are probed for membership equivalence. T: seeded random values recorded "
+                "functions, accepted subnets are probed for membership equivalence; every unit runs in two orders on one "
+                "process state with the std-lib net.IP globals passed as they are (arguments and globals must be "
+                "unchanged after every call) and from several goroutines under -race. T: seeded random values recorded "
                 "with observed results and validated by TLC. distinct_nontrivial = distinct vectors replayed + "
                 "distinct recorded events")
     ctx.assumptions += [
@@ -53,7 +55,8 @@ def run(ctx):
         "membership is compared on probes of the prefix's family, identified with the net.IP of the same bytes; "
         "excluded: IPv4-mapped 16-byte network converted to IPv6 with fewer than 96 mask bits, and IPv4-mapped "
         "probes against genuine IPv6 networks (package net treats ::ffff:a.b.c.d as the IPv4 address)",
-        "IPNetToPrefixNoMapped may rewrite subnet.IP; each call gets a private subnet value",
+        "IPNetToPrefixNoMapped may rewrite the subnet.IP field; each call gets a private subnet value; the bytes "
+        "of every argument (and of the std-lib net.IP globals) must be unchanged after every call",
     ]
 
     # 1. design lemmas.
@@ -63,6 +66,27 @@ def run(ctx):
     write_cfg(d / "PreferSortMC_run.cfg", "Spec", {"MaxLen": 4 if q else 5, "BruteLen": 4},
               invariants=["SortedOK", "Unique", "SwapInvariant", "OrderedIsFixpoint"])
     ctx.tlc(d, "PreferSortMC", "PreferSortMC_run.cfg", label="sort-order-mc", timeout=1200)
+
+    # 1b. "no hidden state": TLC proves the obligations for the private-buffer design and must
+    #     refute them for the shared-backing-array design (sequentially through the global
+    #     net.IPv4zero, and concurrently with caller-owned arguments only).
+    st_consts = {"Procs": "{1, 2}", "MaxCalls": 2 if q else 3, "Args": "<- AllArgs"}
+    write_cfg(d / "State_private.cfg", "Spec", dict(st_consts, Design='"private"'),
+              invariants=["GlobalsUntouched", "NoHiddenState"])
+    ctx.tlc(d, "AddrConvState", "State_private.cfg", label="no-hidden-state:private-design")
+    refuted = []
+    for name, consts, inv in (
+            ("global-modified", {"Procs": "{1}", "MaxCalls": 2, "Args": "<- AllArgs"}, "GlobalsUntouched"),
+            ("history-dependent", {"Procs": "{1}", "MaxCalls": 2, "Args": "<- AllArgs"}, "NoHiddenState"),
+            ("concurrent-mixup", {"Procs": "{1, 2}", "MaxCalls": 1, "Args": "<- OwnArgs"}, "NoHiddenState")):
+        write_cfg(d / ("State_shared_%s.cfg" % name), "Spec", dict(consts, Design='"shared"'), invariants=[inv])
+        r = ctx.tlc(d, "AddrConvState", "State_shared_%s.cfg" % name, workers=1, expect_ok=False, count=False,
+                    label="no-hidden-state:shared-design:" + name)
+        if r.violated != inv:
+            raise CheckerError("TLC did not refute the shared-backing-array design (%s, expected %s violated, got %s):\n%s"
+                               % (name, inv, r.violated, "\n".join(r.out.splitlines()[-30:])))
+        refuted.append(name)
+    ctx.extra["shared_backing_array_design_refuted_by_tlc"] = refuted
 
     # 2. G: conversions.
     k16 = "<- QuickK16" if q else "<- AllK16"
@@ -92,6 +116,8 @@ def run(ctx):
     ctx.traces += s1["replayed"] + s2["replayed"]
     ctx.exhaustive = True
     ctx.extra["conversion_vectors"] = nconv
+    ctx.extra["conversion_units_incl_std_globals"] = s1["units"]
+    ctx.extra["units_on_std_globals"] = s1["global_units"]
     ctx.extra["subnets_probed_for_membership"] = s1["subnets_compared"]
     ctx.extra["membership_probes"] = s1["membership_probes"]
     ctx.extra["sort_sequences"] = nsort
@@ -109,6 +135,29 @@ def run(ctx):
     ctx.traces += s3["events"] - 1
     ctx.extra["trace_events_validated"] = s3["events"]
     ctx.extra["trace_event_kinds"] = s3.get("counts")
+
+    # 5. concurrent phase under the race detector: the same units from several goroutines, the
+    #    std globals shared; outcomes judged after all goroutines have finished.
+    ng, rounds = (6, 2) if q else (12, 5)
+    p = ctx.vh(["c12", "stress-conv", d / "conv_vectors.ndjson", ctx.scratch / "stress.res", ng, rounds],
+               race=True, timeout=1800, fatal_key="concurrent IPToAddr / IPNetToPrefix / NetAddrToAddrPort")
+    if (ctx.scratch / "stress.res").exists() and p.returncode == 0:
+        s4 = ctx.collect(ctx.scratch / "stress.res")
+        ctx.evaluations += s4["stress_calls"]
+        ctx.extra["concurrent_phase"] = {"goroutines": ng, "rounds": rounds, "units": s4["stress_units"],
+                                         "calls": s4["stress_calls"]}
+    mark = _stage(ctx, "S:concurrent-results", mark)
+    golibs, other = ctx.race_reports()
+    if other and not golibs:
+        raise CheckerError("race detector reported a race in the harness only:\n" + other[0][:3000])
+    for rep in golibs:
+        frames = [ln.strip() for ln in rep.splitlines() if str(REPO) + "/" in ln and ".go:" in ln]
+        where = " | ".join(sorted(set("/".join(f.split(" ")[0].split("/")[-2:]) for f in frames))[:4])
+        ctx.mismatch("DATA RACE in concurrent conversions: " + where,
+                     "the Go race detector reported a data race with a golibs frame while goroutines converted "
+                     "private inputs and shared (read-only) std-lib globals", rep[:6000])
+    ctx.extra["race_reports_with_golibs_frames"] = len(golibs)
+    mark = _stage(ctx, "S:race-detector", mark)
 
 
 def replay(ctx, path):
